@@ -1,5 +1,5 @@
 """C05 — query results equal a direct evaluation of the query over the data."""
-import functools, json, os
+import functools, json, os, subprocess, urllib.parse
 from . import lib
 from .engine import Cfg
 
@@ -473,23 +473,38 @@ class C05(Cfg):
     harness_pkg = "dv-query"
     model_exe = "dmodel_query"
     design_ref = "DESIGN.md §6 C05"
-    technique = ("Lean 4 reference evaluator of the query language with proved laws (limits, filters, paging) + differential run: "
-                 "generated data models, data sets and queries evaluated by the compiled evaluator and by the real "
-                 "QueryParser/PreparedQueries/Query::read on SQLite, results compared structurally")
+    technique = ("Lean 4: (1) reference evaluator of the query language with proved laws (limits, filters, paging); (2) a literal model of the SQL "
+                 "generator of query.rs for single-entity queries (SQL tree + printer) and a denotational semantics of that SQL fragment, "
+                 "with the theorem that the generated statement computes the evaluator's result for the code as it is; "
+                 "+ differential runs: generated data models, data sets and queries evaluated by the compiled evaluator and by the real "
+                 "QueryParser/PreparedQueries/Query::read on SQLite, results compared structurally; for the fragment also the SQL text and the bound "
+                 "values byte for byte, the rows predicted by the SQL semantics, and the stored _node table")
     level_text = (
         "A reference evaluator eval : Schema -> Data -> Query -> rows written in Lean 4 from the meaning of the language (it never mentions SQL), with theorems that make it a readable specification: "
         "first/skip are take/drop of the ordered list; a row is selected iff it satisfies every filter and every mandatory sub-selection selects something (filters are List.filter and commute); "
         "and the paging theorem, for every data set, every query of the covered subset and every page size n>=1: if the selected rows have strictly increasing (i.e. pairwise different, the result being sorted) "
         "key tuples and no absent key, iterating `first n, after(keys of the last row)` from the start yields the selected rows in order, each exactly once (induction on the sorted list, no bound). "
         "Counter-examples (decide-checked) for ties, for absent keys and for a sub-selection that has the same key as its parent. "
-        "The statement `the SQL compiler implements eval` is NOT proved (it would need a formal semantics of SQLite): it is decided by the differential run of every check: generated data models "
+        "PROVED for the single-entity fragment (C05_compile_correct, no bound on schema, data or query): Model/SqlGen.lean is a literal model of SingleQuery::build / get_entity_query / get_fields / get_where_filters / get_paging / get_order / get_limit / add_param "
+        "(a SQL tree: json_object projection, WHERE conjuncts incl. the CASE-default form, paging disjunction, ORDER BY, LIMIT/OFFSET, bound-parameter list; `render` prints it) and Model/SqlSem.lean states what SQLite computes for such a tree on a _node table; "
+        "for every data model, data set, injective short naming, variable naming and every query of the fragment (one entity selection: scalar Integer/String/Boolean fields required/nullable/with default, aliases, the id field; filters = != < <= > >= on aliases and on selected or unselected fields "
+        "with literal, null and variable values incl. the default-aware CASE rule; order_by on any number of keys asc/desc on aliases or fields; literal first/skip; before or after with literal values) "
+        "SqlSem.run (table of data) (compile q) params = eval Defects.asImplemented data q as lists of JSON objects, same order (undefined order = order of the data list on both sides; holds for every order of that list). "
+        "The code's deviations (order-ignores-default, explicit-null-hides-default, bool-default-returned-as-number, null-param-filter-no-match, cursors dropping absent keys) are derived from the generated SQL, not assumed. "
+        "Tie of that theorem to the code, on every run: for every generated query of the fragment the text printed by `render (compile q)` equals SingleQuery.sql_query byte for byte, the bound values equal those of build_query_params, "
+        "the rows SqlSem.run predicts equal the rows the real SQLite returns (tie groups as multisets), and the modelled _node table equals the stored one (signatures sql-text-mismatch, sql-semantics-mismatch). "
+        "Outside the fragment (sub-selections through references, nullable(), aggregates, json selectors, reference null tests) the statement `the SQL compiler implements eval` is NOT proved: it is decided by the differential run of every check: generated data models "
         "(namespaces, Integer/String/Boolean fields required/nullable/with default/added in a later model version, entity and array references incl. self references), data sets with ties and absent values on purpose, "
         "and type-directed queries (aliases, nesting depth <= 3, filters on selected and unselected fields with literals and parameters, 1-3 order keys, first/skip, before/after, nullable(), id, reference null tests, json selectors, count/min/max with grouping and having-filters) are evaluated by the compiled Lean evaluator "
         "and by the real QueryParser + PreparedQueries + Query::read on SQLite; the JSON results are compared structurally (rows that tie on every visible order key as multisets). "
         "An independent second evaluator of the intended semantics (Python) is the oracle: every difference between it and the implementation must be explained by a listed deviation.")
     level_note = (
-        "Proved about the evaluator only; the tie between evaluator and Rust code is differential (sampled), not a proof. "
-        "Language subset covered: scalar selection (Integer, String, Boolean; required, nullable, default, late fields), id, aliases, entity/array sub-selections to depth 3, nullable(), "
+        "Proved: laws of the evaluator, and - for single-entity queries (no sub-selection, no aggregate, no json selector, no search; literal first/skip and cursor values) - that the SQL the compiler MODEL generates means the evaluator's result "
+        "under the trusted SQL semantics Model/SqlSem.lean (three-valued comparisons, NULL < numbers < texts, -> / ->> / Ifnull / json_object on JSON scalars, WHERE alias `value`, stable ORDER BY, LIMIT/OFFSET). "
+        "What ties the compiler model and the SQL semantics to query.rs and to SQLite is differential (sampled): text and bound values byte for byte, predicted rows vs real rows. The parser (query text -> EntityQuery: names, is_selected, typing) is not modelled: "
+        "the fragment predicate `inFragment` states what it guarantees (distinct keys, aliases name a scalar selection, null literal only on nullable fields, cursor arity). "
+        "Everything outside the fragment is differential only. "
+        "Language subset covered by the differential run: scalar selection (Integer, String, Boolean; required, nullable, default, late fields), id, aliases, entity/array sub-selections to depth 3, nullable(), "
         "filters = != < <= > >= (literal, parameter, null) on fields and aliases with the default-aware rule, order_by (1-3 keys, asc/desc), first/skip, before/after; "
         "`= null` / `!= null` on reference fields; Json fields selected as a whole or through json selectors (`f->$.a.b[0]`, `f->2`, `f->$`) and filtered through them; "
         "at the root also count()/min()/max() over required Integer fields grouped by 0-2 plain scalar fields, with filters on fields, having-filters on aggregate aliases and order_by on group fields or aggregate aliases. "
@@ -497,6 +512,8 @@ class C05(Cfg):
         "The paging theorem's hypothesis is that the order-key tuples of the selected rows are pairwise different (and present, for the code as it is); that the result is sorted is a theorem (C05_result_sorted).")
     trusted_base = [
         "hand-written evaluator lean/DiscretModel/Model/Query.lean, tied to the code by the differential run (dv-query vs dmodel_query)",
+        "lean/DiscretModel/Model/SqlSem.lean: the semantics of the generated SQL fragment (our statement of what SQLite does), validated against the real SQLite by the sqlck stream",
+        "lean/DiscretModel/Model/SqlGen.lean: model of the SQL generator, validated byte for byte (text and bound values) against PreparedQueries::build by the sqlck stream",
         "harness/query: builds the data model, rows and query text from the op lines, canonicalises the JSON result (uids -> row numbers, tie runs sorted)",
         "checks/C05.py: the second (Python) evaluator used as oracle",
         "SQLite 3.45.3 (ORDER BY on mixed types, json functions) as observed",
@@ -505,16 +522,61 @@ class C05(Cfg):
         "the meaning of a comparison with an absent value is 'not satisfied' (SQL three-valued logic) - taken as the language's meaning",
         "ordering of values: absent < numbers (booleans as 0/1) < texts by code point",
         "where the language defines no order (no order_by, ties) results are compared as multisets",
+        "C05_compile_correct: the short names of entities and fields are injective (the data model numbers them); SQLite's sort keeps the scan order of ties (only used up to permutation inside tie groups by the comparison)",
     ]
 
     def streams(self, tier, seed, work, dv):
         n = 150 if tier == "quick" else 3500
         path = os.path.join(work, "queries.ops")
         lib.sh([dv, "gen", "--prop", "C05", "--seed", str(seed), "--n", str(n), "--tier", tier, "--out", path], check=True)
-        return [("queries seed=%d cases=%d" % (seed, n), path, False)]
+        # the fragment of the SQL compiler theorem: text, bound values, predicted rows, stored table
+        m = 250 if tier == "quick" else 5000
+        path2 = os.path.join(work, "sqlck.ops")
+        lib.sh([dv, "gen", "--prop", "C05sql", "--seed", str(seed), "--n", str(m), "--tier", tier, "--out", path2], check=True)
+        self._work = work
+        return [("queries seed=%d cases=%d" % (seed, n), path, False),
+                ("sqlck seed=%d cases=%d" % (seed, m), path2, False)]
 
     def nontrivial(self, ops, outs):
         return any(o.startswith("res=[{") for o in outs)
+
+    # ---- the tie of C05_compile_correct: the compiled Lean model (SqlGen.render/compile, SqlSem.run) on the same case
+    def _model_outs(self, ops):
+        work = getattr(self, "_work", None) or os.path.join(lib.OUT, "work", self.prop)
+        os.makedirs(work, exist_ok=True)
+        p = os.path.join(work, "sqlck_case.ops")
+        with open(p, "w") as f: f.write("\n".join(ops) + "\n")
+        try:
+            lib.run_model(lib.model_bin(self.model_exe), p, p + ".model", timeout=600)
+        except (lib.CheckError, OSError, subprocess.TimeoutExpired):
+            return None
+        return lib.read_lines(p + ".model")
+
+    def sql_oracle(self, ops, outs):
+        if not any(o.split(" ", 1)[0] in ("sqlck", "sqltbl") for o in ops): return []
+        mod = self._model_outs(ops)
+        if mod is None or len(mod) != len(outs):
+            return [("sql-text-mismatch", "the model driver gave no answer for the case")]
+        res = []
+        for op, out, m in zip(ops, outs, mod):
+            k = op.split(" ", 1)[0]
+            if k == "sqltbl" and out != m:
+                res.append(("sql-semantics-mismatch", "stored _node table: impl %s model %s" % (out[:150], m[:150])))
+            if k != "sqlck" or out == m: continue
+            fi = dict(x.split("=", 1) for x in out.split(" ") if "=" in x)
+            fm = dict(x.split("=", 1) for x in m.split(" ") if "=" in x)
+            if "sql" not in fi or "sql" not in fm:
+                res.append(("sql-text-mismatch", "impl %s model %s" % (out[:120], m[:120])))
+                continue
+            if fi.get("sql") != fm.get("sql"):
+                a, b = urllib.parse.unquote(fi["sql"]), urllib.parse.unquote(fm["sql"])
+                i = next((j for j in range(min(len(a), len(b))) if a[j] != b[j]), min(len(a), len(b)))
+                res.append(("sql-text-mismatch", "statement text differs at byte %d: code ...%r model ...%r" % (i, a[max(0, i - 30):i + 40], b[max(0, i - 30):i + 40])))
+            elif fi.get("par") != fm.get("par"):
+                res.append(("sql-text-mismatch", "bound values differ: code %s model %s" % (fi.get("par"), fm.get("par"))))
+            if fi.get("rows") != fm.get("rows"):
+                res.append(("sql-semantics-mismatch", "rows of the statement: SQLite %s SqlSem.run %s" % ((fi.get("rows") or "")[:150], (fm.get("rows") or "")[:150])))
+        return res
 
     def oracle(self, ops, outs):
         res = []
@@ -550,6 +612,7 @@ class C05(Cfg):
                         res.append((sig, "pages %s do not add up to %s" % (out[:120], last_full[:120])))
             else:
                 apply_op(w, k, a)
+        res += self.sql_oracle(ops, outs)
         seen, uniq = set(), []
         for s, d in res:
             if s not in seen:
